@@ -93,27 +93,7 @@ func runC09(w *World, r *Report) {
 	for _, n := range []struct{ p, t string }{{"internal/callbacks", "manager"}, {"compose", "NodePath"}, {"compose", "Option"}} {
 		armedOwners[w.Named(n.p, n.t)] = true
 	}
-	for _, fn := range w.RepoFuncs("compose", "internal", "flow", "callbacks", "schema") {
-		for _, as := range appendSites(fn) {
-			if as.root.kind != "field" || as.root.owner == nil || !armedOwners[as.root.owner] {
-				continue
-			}
-			construct := fmt.Sprintf("%s append(%s.%s)", w.fname(origin(fn)), as.root.owner.Obj().Name(), as.root.field.Name())
-			if freshBase(as.root.base, 0) {
-				r.OK("C09.append-alias", construct, as.call.Pos(), "owner object is under construction in this function")
-				continue
-			}
-			if as.stored == "same-field" && !reach[fn] {
-				r.OK("C09.append-alias", construct, as.call.Pos(), "result stored back to the same field (build-time accumulation)")
-				continue
-			}
-			if reason, ok := appendExceptions[construct]; ok {
-				r.Except("C09.append-alias", construct, as.call.Pos(), reason)
-				continue
-			}
-			r.Fail("C09.append-alias", construct, as.call.Pos(), fmt.Sprintf("append on shared slice %s.%s whose result is not kept by the owner (stored: %s): with spare capacity it writes into the backing array other holders read/append concurrently", as.root.owner.Obj().Name(), as.root.field.Name(), as.stored))
-		}
-	}
+	ruleAppendAlias(w, r, "C09.append-alias", armedOwners, w.RepoFuncs("compose", "internal", "flow", "callbacks", "schema"), reach)
 
 	// per-run managers
 	r.Rule("C09.per-run-managers", "run allocates its channel manager / task manager and their containers per call", 4)
